@@ -7,6 +7,7 @@ from ..core import check, Violation, Rejected
 from ..gen import par
 
 ID = "C05"
+IMPORTS = ['rig.place_and_route.allocate.greedy']
 LEVEL = "exploration"
 TECHNIQUE = ("runtime post-condition monitor: interval checks (size, "
              "containment, alignment, disjointness, reservation avoidance) "
